@@ -539,17 +539,24 @@ pub fn fuzz_one(data: &[u8], obs: &mut Obs) {
     let (Some(def_line), Some(call_line)) = (it.next(), it.next()) else {
         return;
     };
-    let in_domain = |src: &str| -> Option<Vec<Tok>> {
-        let t = lex_line(src);
-        if to_source(&t).as_deref() != Some(src) || t.iter().any(|x| matches!(x, Tok::Active(_))) {
+    // the model lexer reads the fuzzer's text; what the VM gets is the *rendering* of those tokens, which must lex back
+    // to the same tokens (the discipline of every generated phase)
+    let in_domain = |src: &str| -> Option<(Vec<Tok>, String)> {
+        if !src.is_ascii() {
             return None;
         }
-        Some(t)
+        let t = lex_line(src);
+        let rendered = to_source(&t)?;
+        if lex_line(&rendered) != t || t.iter().any(|x| matches!(x, Tok::Active(_))) {
+            return None;
+        }
+        Some((t, rendered))
     };
-    let (Some(dt), Some(ct)) = (in_domain(def_line), in_domain(call_line)) else {
+    let (Some((dt, def_src)), Some((ct, call_src))) = (in_domain(def_line), in_domain(call_line)) else {
         obs.skip("fuzz:text-outside-the-model-lexer");
         return;
     };
+    let (def_line, call_line) = (def_src.as_str(), call_src.as_str());
     let name = cs("a");
     if dt.len() < 4 || dt[0] != cs("def") || dt[1] != name || ct.first() != Some(&name) {
         obs.skip("fuzz:not-a-definition-and-call-of-a");
